@@ -152,6 +152,9 @@ func (t *PageTree) loadPages() error {
 
 	// Start recursive traversal from root
 	if err := t.traversePageNode(t.root, nil, make(map[int]bool), 0); err != nil {
+		// Do not keep the pages found so far: a later call must not take
+		// the partial list for the loaded document
+		t.pages = nil
 		return fmt.Errorf("failed to traverse page tree: %w", err)
 	}
 
